@@ -900,6 +900,12 @@ func Run(c *hx.Ctx) {
 	log.InitLog(log.ErrorLog, log.Stdout) // EncodeValue's default branch logs a warning per call
 	var rin decIn
 	if c.ReplayInput(&rin) && rin.Kind != "" {
+		if rin.Kind == "hist" {
+			var h histIn
+			c.ReplayInput(&h)
+			replayHist(c, h)
+			return
+		}
 		replay(c, rin)
 		return
 	}
@@ -918,6 +924,9 @@ func Run(c *hx.Ctx) {
 	}
 	// boundary family around every size constant of the codec (long lists, long payloads)
 	boundary(c)
+	// result lifetime: batches of encodes / decodes whose results are checked after the whole batch,
+	// and a bounded concurrent variant
+	history(c)
 	// deep nesting, in process: 64 KiB (the notify limit), 256 KiB, and in the thorough tier 1 MiB
 	// (the NeoVM byte-array limit; the first such decode costs ~5 s of goroutine stack growth)
 	sizes := []int{64 * 1024, 256 * 1024}
